@@ -24,6 +24,7 @@ const W_BYST_DONE: u64 = 2;
 const W_REUSE_ACKED: u64 = 4;
 const W_REUSE_LOCAL: u64 = 8;
 const W_TABLES_EMPTY: u64 = 16;
+const W_REOPEN_WHILE_HELD: u64 = 32;
 
 fn victim_histories() -> (Vec<Vec<Op>>, Vec<Vec<Op>>) {
     let a = vec![
@@ -163,9 +164,13 @@ enum Cyc {
     LocalOpenRejectedOnce,
     /// endpoint opens, writes, aborts
     LocalOpenAbort,
+    /// peer opens, sends data, aborts (Reset) and opens the same id again while the local application still HOLDS the
+    /// old stream (it has read to EOF but not dropped it); then the application drops the old stream: the new stream
+    /// (an "other stream on the connection") must keep its data and state
+    PeerResetReopenWhileHeld,
 }
 
-const CYCS: [Cyc; 8] = [
+const CYCS: [Cyc; 9] = [
     Cyc::PeerOpenClean,
     Cyc::PeerOpenLocalAbort,
     Cyc::PeerOpenPeerReset,
@@ -174,6 +179,7 @@ const CYCS: [Cyc; 8] = [
     Cyc::LocalOpenClean,
     Cyc::LocalOpenRejectedOnce,
     Cyc::LocalOpenAbort,
+    Cyc::PeerResetReopenWhileHeld,
 ];
 
 struct B {
@@ -241,6 +247,11 @@ fn exec_b(seq: &[Cyc], render: bool) -> RunOutput {
             Cyc::PeerOpenPeerReset => EndPlan::SeqKeep(vec![Op::W(1), Op::ReadToEof(4), Op::W(1)]),
             Cyc::PeerOpenLocalFinishFirst => EndPlan::SeqKeep(vec![Op::W(1), Op::Shutdown, Op::ReadToEof(4)]),
             Cyc::PeerOpenOverrun => EndPlan::SeqKeep(vec![Op::W(1), Op::Park]),
+            Cyc::PeerResetReopenWhileHeld => {
+                // second incarnation (tag + 7 = 0x?f, used by no other variant): an ordinary exchange
+                plans.insert(tag + 7, EndPlan::SeqKeep(vec![Op::W(1), Op::ReadToEof(4), Op::Shutdown]));
+                EndPlan::SeqKeep(vec![Op::ReadToEof(4), Op::Park])
+            }
             _ => continue,
         };
         plans.insert(tag, plan);
@@ -254,6 +265,66 @@ fn exec_b(seq: &[Cyc], render: bool) -> RunOutput {
             b.v("leak.before-cycle", format!("cycle {pos} ({c:?}) starts at quiescence with a non-empty flow table {before:?}"));
         }
         match c {
+            Cyc::PeerResetReopenWhileHeld => {
+                b.raw.send(&RFrame::Connect { id: F, rwnd: 2, port: 1, host: vec![tag] });
+                let d1 = payload(tag, 1, 0, 2);
+                b.raw.send(&RFrame::Push { id: F, data: d1.clone() });
+                b.w.obs.borrow_mut().dir(tag, 0).written.extend(&d1);
+                b.raw.send(&RFrame::Reset { id: F });
+                let got = b.settle();
+                if !got.iter().any(|m| matches!(m, RMsg::Frame(RFrame::Acknowledge { id: F, n }) if *n == E_RWND)) {
+                    b.v("reuse.not-free", format!("cycle {pos} ({c:?}): first Connect on flow {F} not acknowledged; got {got:?}"));
+                }
+                // the peer has let go of the first incarnation and opens the id again; the local application still holds the old stream
+                let tag2 = tag + 7;
+                b.raw.send(&RFrame::Connect { id: F, rwnd: 2, port: 1, host: vec![tag2] });
+                let got = b.settle();
+                let accepted = got.iter().any(|m| matches!(m, RMsg::Frame(RFrame::Acknowledge { id: F, n }) if *n == E_RWND));
+                let rejected = got.iter().any(|m| matches!(m, RMsg::Frame(RFrame::Reset { id: F })));
+                // now the application drops the old stream
+                let idx = b.w.sim.tasks.iter().position(|t| t.name == format!("s{tag}.a") && !t.done);
+                if let Some(i) = idx {
+                    b.w.sim.cancel_task(i);
+                    b.w.obs.borrow_mut().end(&format!("s{tag}.a"));
+                } else {
+                    b.v("harness.holder-missing", format!("cycle {pos}: the task holding the old stream is not there"));
+                }
+                let got_after_drop = b.settle();
+                if accepted {
+                    b.wit |= W_REOPEN_WHILE_HELD;
+                    // the new stream is another stream on the connection: dropping the old one must not touch it
+                    if got_after_drop.iter().any(|m| matches!(m, RMsg::Frame(RFrame::Reset { id: F }))) {
+                        b.v("abort.other-stream-reset", format!("cycle {pos} ({c:?}): the application dropped the OLD stream of flow {F} (already reset by the peer) and the endpoint reset the NEW stream the peer had opened on that id meanwhile; frames after the drop: {got_after_drop:?}"));
+                    }
+                    let d2 = payload(tag2, 1, 0, 2);
+                    b.raw.send(&RFrame::Push { id: F, data: d2.clone() });
+                    b.w.obs.borrow_mut().dir(tag2, 0).written.extend(&d2);
+                    b.raw.send(&RFrame::Finish { id: F });
+                    let got = b.settle();
+                    let obs = b.w.obs.borrow();
+                    let d = obs.dirs.get(&(tag2, 0)).cloned().unwrap_or_default();
+                    drop(obs);
+                    if d.read != d.written || !d.eof {
+                        b.v("abort.other-stream-disturbed", format!("cycle {pos} ({c:?}): the new stream on flow {F} read {:02x?} (eof={}) but its peer wrote {:02x?} and finished; frames {got:?}", d.read, d.eof, d.written));
+                    }
+                    if !got.iter().any(|m| matches!(m, RMsg::Frame(RFrame::Finish { id: F }))) {
+                        b.v("abort.other-stream-disturbed", format!("cycle {pos} ({c:?}): the new stream's application shut down after EOF but no Finish reached the peer: {got:?}"));
+                    }
+                } else if rejected {
+                    // also fine: the id counts as in use while the application holds the old stream; it must be free after the drop
+                    b.raw.send(&RFrame::Connect { id: F, rwnd: 2, port: 1, host: vec![tag2] });
+                    let d2 = payload(tag2, 1, 0, 2);
+                    b.raw.send(&RFrame::Push { id: F, data: d2.clone() });
+                    b.w.obs.borrow_mut().dir(tag2, 0).written.extend(&d2);
+                    b.raw.send(&RFrame::Finish { id: F });
+                    let got = b.settle();
+                    if !got.iter().any(|m| matches!(m, RMsg::Frame(RFrame::Acknowledge { id: F, n }) if *n == E_RWND)) {
+                        b.v("reuse.not-free", format!("cycle {pos} ({c:?}): after the old stream was dropped the id must be free; got {got:?}"));
+                    }
+                } else {
+                    b.v("reopen.unanswered", format!("cycle {pos} ({c:?}): the second Connect on flow {F} was neither acknowledged nor reset: {got:?}"));
+                }
+            }
             Cyc::PeerOpenClean | Cyc::PeerOpenLocalAbort | Cyc::PeerOpenPeerReset | Cyc::PeerOpenLocalFinishFirst | Cyc::PeerOpenOverrun => {
                 // ---- the probe: the same id again
                 b.raw.send(&RFrame::Connect { id: F, rwnd: 2, port: 1, host: vec![tag] });
@@ -457,11 +528,11 @@ pub fn run(args: &Args) -> Report {
         fault: 0,
         total_wall: Duration::from_secs(if thorough { 1500 } else { 50 }),
         max_execs_per_case: 400_000,
-        required_witnesses: W_ABORT_SEEN | W_BYST_DONE | W_REUSE_ACKED | W_REUSE_LOCAL | W_TABLES_EMPTY,
+        required_witnesses: W_ABORT_SEEN | W_BYST_DONE | W_REUSE_ACKED | W_REUSE_LOCAL | W_TABLES_EMPTY | W_REOPEN_WHILE_HELD,
         adaptive: thorough,
-        witness_names: &[("abort_observed_as_eof", W_ABORT_SEEN), ("all_futures_completed", W_BYST_DONE), ("peer_reopen_of_same_id_acknowledged", W_REUSE_ACKED), ("local_reopen_drew_same_id", W_REUSE_LOCAL), ("flow_tables_empty_at_end", W_TABLES_EMPTY)],
+        witness_names: &[("abort_observed_as_eof", W_ABORT_SEEN), ("all_futures_completed", W_BYST_DONE), ("peer_reopen_of_same_id_acknowledged", W_REUSE_ACKED), ("local_reopen_drew_same_id", W_REUSE_LOCAL), ("flow_tables_empty_at_end", W_TABLES_EMPTY), ("peer_reopened_id_while_old_stream_still_held", W_REOPEN_WHILE_HELD)],
     };
-    rep.rule = "driver A: two real endpoints, a victim stream under every pair of close histories (shutdown?/drop/read orders with data in flight), a bystander stream with traffic both ways and a follow-up stream, all schedules <= k deviations: C05's reference model on the victim, bystander/follow-up must complete with equality, flow tables (hook) empty once nobody holds a stream. driver B: real endpoint + raw peer, every sequence of <= L open/close cycles over 8 variants (clean, local abort, peer reset, finish-first, overrun, locally opened clean/rejected/aborted) re-using the SAME flow id at link quiescence: the re-opened id must be acknowledged (slot free, black box), start with fresh credit, empty buffer and no closed flag; the endpoint's scripted generator must draw the same id again".into();
+    rep.rule = "driver A: two real endpoints, a victim stream under every pair of close histories (shutdown?/drop/read orders with data in flight), a bystander stream with traffic both ways and a follow-up stream, all schedules <= k deviations: C05's reference model on the victim, bystander/follow-up must complete with equality, flow tables (hook) empty once nobody holds a stream. driver B: real endpoint + raw peer, every sequence of <= L open/close cycles over 9 variants (clean, local abort, peer reset, finish-first, overrun, locally opened clean/rejected/aborted, peer reset + re-open of the id while the local application still holds the old stream, which it then drops: the new stream must not be touched) re-using the SAME flow id at link quiescence: the re-opened id must be acknowledged (slot free, black box), start with fresh credit, empty buffer and no closed flag; the endpoint's scripted generator must draw the same id again".into();
     rep.assumptions = vec![
         "re-use is probed at link quiescence; a Reset/Push of the old incarnation still in flight when the id is re-used is outside the statement (no incarnation numbers in the protocol)".into(),
         "one poll = one atomic step".into(),
